@@ -678,11 +678,17 @@ def gen_codec(rng, n, ops=("snappy", "lz4", "gzip", "zstd", "snappy_len")):
             base, exact = lz4_stream(rng)
         elif op == "gzip":
             c = content(rng)
-            co = zlib.compressobj(rng.choice([1, 6, 9]), zlib.DEFLATED, 31)
-            base, exact = co.compress(c) + co.flush(), len(c)
+            base, exact = gzip_member(c, rng.choice([1, 6, 9])), len(c)
+            if rng.random() < 0.25:          # further members: capacities are then drawn around the first member
+                for _ in range(rng.randrange(1, 4)):
+                    base += gzip_member(content(rng))
         else:
             c = content(rng)
             base, exact = zstd_compress(c, rng.choice([1, 3, 19])), len(c)
+            if rng.random() < 0.25:          # further frames: libzstd decodes them all
+                for _ in range(rng.randrange(1, 4)):
+                    c2 = content(rng)
+                    base += zstd_compress(c2); exact += len(c2)
         r = quota.draw(cases)
         if r < 0.6:
             for m in mutations(rng, base, 120 if op in ("gzip", "zstd") else 250, fields=False):
@@ -931,6 +937,47 @@ def gen_thrift(rng, n):
             d = rb(rng, rng.randrange(0, 80))
             cases.append(Case(op, 0, 0, None, None if (not d and rng.random() < 0.3) else d, tag="random"))
     return cases[:n]
+
+
+def gzip_member(c, level=6):
+    co = zlib.compressobj(level, zlib.DEFLATED, 31)
+    return co.compress(c) + co.flush()
+
+
+def gen_multimember_suite(rng, tier):
+    """legal multi-member gzip streams (RFC 1952 section 2.2: members back to back) and multi-frame zstd streams
+    (frames back to back, skippable frames in between) x capacities around every member boundary and the total.
+    zlib / libzstd are not sanitizer-instrumented: a store past the capacity shows only through the reported
+    size and the guard area the driver keeps behind the output."""
+    cases = []
+    shapes = [[700, 700], [1, 1], [0, 5], [5, 0], [10, 20, 30], [300, 1, 300], [64, 64, 64, 64], [1000, 10], [10, 1000],
+              [255, 256, 257], [4096, 4096]]
+    for _ in range(6 if tier == "quick" else 30):
+        shapes.append([rng.choice([0, 1, 7, 100, 700, rng.randrange(0, 2000)]) for _ in range(rng.randrange(2, 5))])
+    for op in ("gzip", "zstd"):
+        for sizes in shapes:
+            parts = []
+            for i, n in enumerate(sizes):
+                c = bytes([0x41 + i]) * n if rng.random() < 0.5 else rb(rng, n)
+                parts.append(gzip_member(c, rng.choice([1, 6, 9])) if op == "gzip" else zstd_compress(c, rng.choice([1, 3])))
+            streams = [b"".join(parts)]
+            if op == "zstd":     # a skippable frame between the frames (magic 0x184D2A50, 4-byte size, payload)
+                streams.append(parts[0] + bytes.fromhex("502a4d18") + struct.pack("<I", 3) + b"xyz" + b"".join(parts[1:]))
+            caps = {0, 1}
+            acc = 0
+            for n in sizes:
+                acc += n
+                caps |= {max(0, acc - 1), acc, acc + 1}
+            caps |= {acc + 100, sizes[0] + sizes[1] // 2, max(0, acc - sizes[-1] // 2)}
+            for st in streams:
+                for cp in sorted(caps):
+                    cases.append(Case(op, 0, 0, cp, st, tag="multimember"))
+                # damage in / after the second member, trailing garbage after a complete member
+                cut = len(parts[0]) + max(1, len(parts[1]) // 2)
+                for bad in (st[:cut], st[:len(parts[0])] + b"\x00", st[:len(parts[0])] + rb(rng, 8), st + b"\x1f\x8b"):
+                    for cp in (sizes[0], sizes[0] + 1, acc, max(0, acc - 1)):
+                        cases.append(Case(op, 0, 0, cp, bad, tag="multimember"))
+    return cases
 
 
 # nesting suite: deep chains of EVERY container constructor in EVERY child position, for both parsers.
@@ -1240,7 +1287,7 @@ def run(tier):
     prelude(rep, PID)
     rep.cov["trusted_base"] = vlib.TRUSTED_BASE_COMMON + [
         "AddressSanitizer red zones around exact-size heap objects, guard pages after mapped outputs above 16 MiB, LeakSanitizer and the live-heap counter (__sanitizer_get_current_allocated_bytes) as the observers of memory safety on the implementation",
-        "zlib inflate and libzstd ZSTD_decompressDCtx are external: Section variables in Dec/WrapperModel.v assumed to write at most dst_capacity bytes and to report a size <= capacity or an error (what carquet adds around them is proved; their own memory safety is only observed under ASan here)",
+        "zlib inflate and libzstd ZSTD_decompressDCtx are external: Section variables in Dec/WrapperModel.v assumed to write at most dst_capacity bytes and to report a size <= capacity or an error (what carquet adds around them is proved); the system libraries are NOT sanitizer-instrumented, so their stores are observed through the reported size and a 64 KiB guard area behind the declared capacity that the driver compares after every gzip / zstd call",
         "the heap discipline of the real process (that the C code frees what the model's allocation events say) is observed by the driver, not proved (DESIGN.md section 10)",
     ]
     rep.cov["rule"] = ("per entry point (32 ops covering every decoder named by the property): (a) every truncation, bit flip, "
@@ -1265,6 +1312,10 @@ def run(tier):
     suite = gen_nesting_suite(random.Random(vlib.SEED * 131 + 7), tier)
     suite_res = run_cases(rep, drv, suite, stats)
     flush_violations(rep, stats)
+    # 1c. multi-member gzip / multi-frame zstd streams x capacities around every member boundary
+    mm = gen_multimember_suite(random.Random(vlib.SEED * 137 + 11), tier)
+    run_cases(rep, drv, mm, stats)
+    flush_violations(rep, stats)
     # 2. generated cases
     total = 300_000 if tier == "quick" else 5_000_000
     chunk = 250_000
@@ -1280,7 +1331,7 @@ def run(tier):
         flush_violations(rep, stats)
         if len(rep.violations) >= 5:
             break
-    rep.cov["calls"] = done + len(corpus) + len(suite)
+    rep.cov["calls"] = done + len(corpus) + len(suite) + len(mm)
     rep.cov["by_entry_point"] = stats["by_op"]
     rep.cov["input_distribution"] = stats["by_tag"]
     rep.cov["ub_reports"] = stats["ub"]
